@@ -39,7 +39,7 @@ func (s ecSigner) Sign(r io.Reader, digest []byte, opts crypto.SignerOpts) ([]by
 }
 
 type signKey struct {
-	name   string        // model-side key name = its algorithm name (so that alg_of k = name) + index suffix stripped in alg
+	name   string // model-side key name = its algorithm name (so that alg_of k = name) + index suffix stripped in alg
 	alg    string
 	priv   signature.Key // for Sign
 	verify any           // for Verify: jwk.Set or crypto.Signer
@@ -160,7 +160,7 @@ func (g *docgen) signableStep() *dv {
 func (g *docgen) pipelineEnv() map[string]string {
 	e := map[string]string{}
 	for k := g.rng.Intn(4); k > 0; k-- {
-		e[sx.Pick(g.rng, []string{"FOO1", "BAR2", "DEPLOY", "CI", "A_B3", "lower4", "FOO", "BAR"})] = sx.Pick(g.rng, g.strPool)
+		e[sx.Pick(g.rng, []string{"FOO1", "BAR2", "DEPLOY", "CI", "A_B3", "lower4", "FOO", "BAR", "version", "env_mode", "node_env", "nv", "e", "vvv:x"})] = sx.Pick(g.rng, g.strPool)
 	}
 	return e
 }
